@@ -114,6 +114,8 @@ def outcome(task):
     exc = task.exception()
     if exc is None:
         res = task.result()
+        if isinstance(res, tuple) and len(res) == 2:
+            return ('collect', dec(res[0]), dec(res[1]), '-')
         if isinstance(res, asyncssh.SSHCompletedProcess):
             x = 'none'
             if res.exit_signal is not None:
@@ -364,6 +366,10 @@ class Replay:
     def start_call(self, dt, kind, n, sep):
         if kind == 'wait':
             coro = self.proc.wait()
+        elif kind == 'collect':
+            async def collect():
+                return self.proc.collect_output()
+            coro = collect()
         else:
             rd = self.readers[dt]
             if kind == 'read':
@@ -395,8 +401,8 @@ class Replay:
             self.log.append(('done', dt, spec, out))
             if self.tasks.get(dt, (None,))[0] is t:
                 del self.tasks[dt]
-            if out[0] == 'wait':
-                fin.append([dt, 'wait', out[1], out[2], out[3]])
+            if out[0] in ('wait', 'collect'):
+                fin.append([dt, out[0], out[1], out[2], out[3]])
             else:
                 fin.append([dt, out[0], out[1], [], '-'])
         self.completed = []
@@ -498,7 +504,7 @@ class Replay:
         self.steps_done = step
         if self.desync:
             self.divergences.append(f'step {step}: {self.desync}')
-        if not self.machinery:
+        if not self.machinery and not self.desync:
             self.finish()
 
     def finish(self):
@@ -578,7 +584,7 @@ class _MemWriterTransport(asyncio.Transport):
 
 def judge(rep):
     """Evaluate C19's read clauses on the observations of one replay.
-    Returns a list of (clause, call, detail, stale) tuples."""
+    Returns a list of (clause, call, detail, context) tuples."""
     W = rep.W
     viol = []
     dts = rep.dts
@@ -604,9 +610,18 @@ def judge(rep):
     def unread_total():
         return sum(arrived_n[d] - pd[d] for d in dts if d not in redirected)
 
+    collected = [False]
+
+    def context(dt):
+        """circumstances that identify a known finding"""
+        if stale.get(dt):
+            return 'stale-pause'
+        if collected[0]:
+            return 'after-collect'
+        return ''
+
     def bad(clause, dt, spec, detail):
-        viol.append((clause, spec, f'{dt} {spec}: {detail}',
-                     bool(stale.get(dt))))
+        viol.append((clause, spec, f'{dt} {spec}: {detail}', context(dt)))
 
     for ev in rep.log:
         if ev[0] == 'arrive':
@@ -644,6 +659,17 @@ def judge(rep):
             continue
         _, dt, spec, out = ev
         kind, n, sep = spec
+        if kind == 'collect':
+            _, o, e, _x = out
+            for d, v in (('out', o), ('err', e)):
+                rest = sent_data[d][pd[d]:arrived_n[d]]
+                if v != rest[:len(v)]:
+                    bad('nothing-lost', 'w', spec,
+                        f'collect_output() returned {v} for {d}, unread '
+                        f'output is {rest}')
+                pd[d] += len(v)
+            collected[0] = True
+            continue
         if kind == 'wait':
             _, o, e, x = out
             for d, v in (('out', o), ('err', e)):
@@ -791,14 +817,14 @@ def judge(rep):
         _, active, ateof = end
         if 'w' in active and closed_arrived:
             viol.append(('hung-wait', active['w'],
-                         'wait() still pending after CLOSE', False))
+                         'wait() still pending after CLOSE', context('out')))
         for dt in dts:
             if dt in redirected:
                 continue
             if dt in active:
                 viol.append(('hung-read', active[dt],
                              f'{dt} {active[dt]} still pending after EOF '
-                             f'and a full drain', bool(stale[dt])))
+                             f'and a full drain', context(dt)))
                 continue
             if dt not in rep.readers:
                 continue
@@ -806,21 +832,22 @@ def judge(rep):
                 viol.append(('nothing-lost', None,
                              f'{dt}: {pd[dt]} of {len(sent_data[dt])} units '
                              f'and {pm[dt]} of {len(sent_marks[dt])} markers '
-                             f'delivered by the end', bool(stale[dt])))
+                             f'delivered by the end', context(dt)))
             elif not ateof.get(dt):
                 viol.append(('eof-report', None,
                              f'{dt}: at_eof() false after EOF and a full '
-                             f'drain', bool(stale[dt])))
+                             f'drain', context(dt)))
     for ev in targets:
         _, dt, kind, got, eof = ev
         want = sent_data[dt][redirected.get(dt, 0):]
         if got is not None and got != want:
             viol.append(('all-data-then-eof', ('redirect', kind),
                          f'{dt} -> {kind}: target got {got}, source wrote '
-                         f'{want} after the redirection point', False))
+                         f'{want} after the redirection point', context(dt)))
         if eof is not None and not eof:
             viol.append(('all-data-then-eof', ('redirect', kind),
-                         f'{dt} -> {kind}: no EOF at the target', False))
+                         f'{dt} -> {kind}: no EOF at the target',
+                         context(dt)))
     return viol
 
 
@@ -831,7 +858,9 @@ def replay(h, case, **kw):
     n_exc = len(h.loop.exceptions)
     try:
         rep.execute()
-        viol = [] if rep.machinery or rep.desync else judge(rep)
+        # after a desync the closing phase is skipped; what was observed up
+        # to that point is still judged
+        viol = [] if rep.machinery else judge(rep)
     finally:
         rep.shut()
     loopexc = [str(c.get('exception') or c.get('message'))
@@ -1043,3 +1072,114 @@ def replay_exit(h, sc):
                      f'server ended with {sc["how"]}, client reports status '
                      f'{res.exit_status} signal {res.exit_signal}'))
     return viol
+
+
+# ---------------------------------------------------------------------------
+# AllDataThenEOF for stdin redirections: the source is copied to the remote
+# process' stdin completely, then EOF.  The remote side has a small window
+# and the write buffer limits are small, so feeding is paused and resumed.
+
+def stdin_scenarios(tier):
+    out = []
+    sizes = [0, 1, 5, 16, 17, 40] if tier == 'quick' else \
+        [0, 1, 2, 5, 8, 16, 17, 33, 40, 64, 100, 257]
+    for kind in ('file', 'name', 'process', 'stream', 'devnull'):
+        for size in sizes:
+            for win in (3, 16):
+                for bufsize in (4, 16):
+                    if kind == 'devnull' and (size or bufsize != 4):
+                        continue
+                    out.append(dict(kind=kind, size=size, window=win,
+                                    bufsize=bufsize))
+    return out
+
+
+def replay_stdin(h, sc):
+    loop = h.loop
+    if not hasattr(h, 'transports'):
+        h.transports = {}
+    conn, _ = _drain_conn(h, sc['window'])
+    payload = bytes((i * 7 + 3) % 251 for i in range(sc['size']))
+    n0 = len(h.emit_sessions)
+
+    async def op():
+        return await conn.create_process(command='sink', encoding=None)
+    proc = loop.run_until_complete(op())
+    loop.run_until_idle()
+    assert len(h.emit_sessions) == n0 + 1
+    sink = h.emit_sessions.pop()
+    proc.channel.set_write_buffer_limits(high=8, low=2)
+    tmp = None
+    src_proc = src_emit = None
+    kind = sc['kind']
+    if kind in ('file', 'name'):
+        tmp = tempfile.mkdtemp(prefix='c19_stdin_', dir=h.workdir)
+        path = os.path.join(tmp, 'source')
+        with open(path, 'wb') as f:
+            f.write(payload)
+        source = open(path, 'rb') if kind == 'file' else path
+    elif kind == 'devnull':
+        source = asyncssh.DEVNULL
+    elif kind == 'stream':
+        source = asyncio.StreamReader(loop=loop)
+    else:
+        # stdout of another remote process
+        cconn = h.client_reader_conn()
+        m0 = len(h.emit_sessions)
+
+        async def op2():
+            return await cconn.create_process(command='src', encoding=None)
+        src_proc = loop.run_until_complete(op2())
+        loop.run_until_idle()
+        assert len(h.emit_sessions) == m0 + 1
+        src_emit = h.emit_sessions.pop()
+        source = src_proc.stdout
+
+    async def redir():
+        await proc.redirect_stdin(source, bufsize=sc['bufsize'])
+    viol = []
+    try:
+        loop.run_until_complete(redir())
+        loop.run_until_idle()
+        if kind == 'stream':
+            for i in range(0, len(payload), 5):
+                source.feed_data(payload[i:i + 5])
+                loop.run_until_idle()
+            source.feed_eof()
+        elif kind == 'process':
+            for i in range(0, len(payload), 5):
+                src_emit.chan.write(payload[i:i + 5])
+                loop.run_until_idle()
+            src_emit.chan.write_eof()
+        loop.run_until_idle()
+        got = b''.join(sink.got)
+        if got != payload:
+            viol.append(('all-data-then-eof', kind,
+                         f'stdin <- {kind}: remote process received '
+                         f'{len(got)} bytes (first difference at '
+                         f'{_first_diff(got, payload)}), source has '
+                         f'{len(payload)}'))
+        if not sink.got_eof:
+            viol.append(('all-data-then-eof', kind,
+                         f'stdin <- {kind}: no EOF at the remote process '
+                         f'after {len(got)}/{len(payload)} bytes'))
+    finally:
+        try:
+            proc.close()
+            sink.chan.close()
+            if src_proc is not None:
+                src_proc.close()
+                src_emit.chan.close()
+            loop.run_until_idle()
+        except Exception:               # pylint: disable=broad-except
+            pass
+        if tmp:
+            shutil.rmtree(tmp, ignore_errors=True)
+    return viol
+
+
+def _first_diff(a, b):
+    for i, (x, y) in enumerate(zip(a, b)):
+        if x != y:
+            return i
+    return min(len(a), len(b))
